@@ -36,3 +36,4 @@ done
 git -C /repo checkout -- . ; git -C /repo status --short | head -3
 # evidence written while a seed was applied is not evidence about the tree: put the clean files back
 rm -rf /verif/evidence && mv /tmp/evidence_backup /verif/evidence
+rm -f /verif/replays/*.json   # replays written while a patch was applied are not about the tree
